@@ -60,7 +60,13 @@ COUNT: dict = {}   # variants actually injected (reported as features by run_cas
 def expect(fn, exc, where):
     """the faulty call itself must raise `exc`.  The verdict is also kept in LAST because the
     exception that carries it may be replaced while unwinding (Conditional.__exit__ raises when
-    its context is left with unbuilt cases)."""
+    its context is left with unbuilt cases).
+
+    The statement asks for "an error (the documented one wherever one is documented)".  The dedicated classes
+    (ConditionalError, MismatchedExit, NoSiblingAncestor, NotInSameCfg, NoConcreteFunc, IncompleteOp, the IndexError
+    of the tracked builder) are documented and demanded exactly.  The plain ValueError refusals are documented nowhere
+    (no Raises section, no dedicated class): there ANY exception is a refusal, and a class other than ValueError is
+    only counted (COUNT["other-error-class..."])."""
     try:
         fn()
     except Verdict:
@@ -68,11 +74,26 @@ def expect(fn, exc, where):
     except exc as e:
         v = Verdict(True, exc.__name__, type(e).__name__, where)
     except Exception as e:  # noqa: BLE001
-        v = Verdict(False, exc.__name__, f"{type(e).__name__}: {str(e)[:150]}", where)
+        if exc is ValueError:
+            COUNT[f"other-error-class[{where}:{type(e).__name__}]"] = COUNT.get(
+                f"other-error-class[{where}:{type(e).__name__}]", 0) + 1
+            v = Verdict(True, "an exception", type(e).__name__, where)
+        else:
+            v = Verdict(False, exc.__name__, f"{type(e).__name__}: {str(e)[:150]}", where)
     else:
         v = Verdict(False, exc.__name__, "no exception (silently accepted)", where)
     LAST["verdict"] = v
     raise v from None
+
+
+def consumer(st):
+    """The op a refused port is offered to: a type-inferring Noop or (decided by the statement's id, so that a replay
+    takes the same one) an op with a fixed signature, which cannot fail by accident on a port without a type: a
+    builder that no longer refuses then accepts silently."""
+    from hugr import ops
+    from hugr.std.logic import Not
+
+    return ops.Noop() if (sum(map(ord, st["id"])) // 3) % 2 else Not
 
 
 def sites(prog):
@@ -232,10 +253,10 @@ def make_interp(kind, site):
                 if sib:
                     src = (calls or sib)[-1]
                     COUNT["order-port-as-value"] = COUNT.get("order-port-as-value", 0) + 1
-                    expect(lambda: b.add_op(ops.Noop(), OutPort(src, -1)), ValueError, "add_op(order port)")
+                    expect(lambda: b.add_op(consumer(st), OutPort(src, -1)), ValueError, "add_op(order port)")
                     return
             c = b.add_const(val.TRUE, b.parent_node)
-            expect(lambda: b.add_op(ops.Noop(), c.out(0)), ValueError, "add_op(const port)")
+            expect(lambda: b.add_op(consumer(st), c.out(0)), ValueError, "add_op(const port)")
 
         def inj_static_port_of_another_block(self, where, st, b=None, **kw):
             # a constant that lives in ANOTHER block of the same CFG: the inter-block path of the Block builder must
@@ -250,7 +271,7 @@ def make_interp(kind, site):
                 return False
             self.injected = True
             c = b.hugr.add_const(val.TRUE, others[-1])
-            expect(lambda: b.add_op(ops.Noop(), c.out(0)), ValueError, "add_op(const port of another block)")
+            expect(lambda: b.add_op(consumer(st), c.out(0)), ValueError, "add_op(const port of another block)")
 
         def inj_funcdefn_as_value(self, where, st, b=None, **kw):
             if where != "region":
@@ -270,7 +291,7 @@ def make_interp(kind, site):
                 self.skipped = "no function node in an enclosing region"
                 return False
             self.injected = True
-            expect(lambda: b.add_op(ops.Noop(), cands[0].out(0)), ValueError, "add_op(function port)")
+            expect(lambda: b.add_op(consumer(st), cands[0].out(0)), ValueError, "add_op(function port)")
 
         def inj_int_arg(self, where, st, b=None, **kw):
             if where != "region":
